@@ -12,6 +12,7 @@ import CelloProofs.Lemmas.Thr
 import CelloProofs.Lemmas.ThrCounter
 import CelloProofs.Props.C07
 import CelloGen.Exn
+import CelloGen.Thr
 
 namespace Cello.Thr
 
@@ -243,6 +244,41 @@ theorem C13_error_translation :
     unlockTr .einval = some .valueError ∧ unlockTr .eperm = some .resourceError ∧
     joinTr .einval = some .valueError ∧ joinTr .esrch = some .valueError :=
   ⟨rfl, rfl, rfl, rfl, rfl, rfl, rfl, rfl, rfl, rfl, rfl, rfl⟩
+
+/-! ### the model is about the source as it is now (regenerated from /repo on every run) -/
+
+/-- the functions the model mirrors — how per-thread state is reached (`Thread_Current`, `GC_Current`,
+    `Exception_Current`, the TLS accessors), prologue and epilogue of `Thread_Init_Run`, `GC_New`/`GC_Del`,
+    `Exception_New`/`Exception_Del`, the registration in `alloc_by`/`del_by`, `start_in`/`stop_in`/`with`, the Mutex
+    functions and its `Lock`/`Start` instances, `Thread_Join`, the class-cache macro — have, in /repo's current
+    source, exactly the text the model was written against -/
+theorem C13_source_shape_as_modelled : CelloGen.Thr.shape = CelloGen.Thr.shapeModelled := rfl
+
+def Errno.name : Errno → String
+  | .zero => "0" | .einval => "EINVAL" | .edeadlk => "EDEADLK" | .ebusy => "EBUSY" | .eperm => "EPERM"
+  | .esrch => "ESRCH" | .eagain => "EAGAIN"
+
+def excOfName : String → Option Exc
+  | "ValueError" => some .valueError | "ResourceError" => some .resourceError | "KeyError" => some .keyError
+  | "OutOfMemoryError" => some .outOfMemoryError | "BusyError" => some .busyError | _ => none
+
+/-- what a table `[(errno, exception)]` extracted from the source does with error code `e` -/
+def tableTr (tab : List (String × String)) (e : Errno) : Option Exc := (tab.lookup e.name).bind excOfName
+
+def tableTry (tab : List (String × String)) (dflt : String) (e : Errno) : Option (Except Exc Bool) :=
+  match tab.lookup e.name with
+  | some "false" => some (.ok false)
+  | some "true" => some (.ok true)
+  | some x => (excOfName x).map .error
+  | none => if dflt = "true" then some (.ok true) else if dflt = "false" then some (.ok false) else none
+
+/-- the model's translation of pthread error codes is the one extracted from `Mutex_Lock`, `Mutex_Trylock`,
+    `Mutex_Unlock`, `Thread_Join` and `Thread_Call` in the current source, for every error code -/
+theorem C13_error_translation_current_source (e : Errno) :
+    lockTr e = tableTr CelloGen.Thr.lockErr e ∧ unlockTr e = tableTr CelloGen.Thr.unlockErr e ∧
+    joinTr e = tableTr CelloGen.Thr.joinErr e ∧ createTr e = tableTr CelloGen.Thr.createErr e ∧
+    some (trylockTr e) = tableTry CelloGen.Thr.trylockErr CelloGen.Thr.trylockDefault e := by
+  cases e <;> exact ⟨by decide, by decide, by decide, by decide, by rfl⟩
 
 /-! ### non-vacuity: concrete schedules meet the hypotheses and exercise the interesting branches -/
 
